@@ -173,6 +173,95 @@ def rule_bool_is_not_a_number(ctx, rep, rid: str) -> None:
                 rep.bad(rid, key, f"{f.qual} returns `{v}` unchanged when {num_test[0]} holds, without excluding booleans first: true/false are passed through as numbers-that-are-booleans (e.g. `true | false` yields a boolean, `typeof` says 'boolean')", f"{f.module.rel}:{r.lineno}")
 
 
+def rule_strict_equality_excludes_bool(ctx, rep, rid: str) -> None:
+    """=== never holds between a boolean and a number.  The helper behind the strict-equality opcodes compares a host
+    int with a host float by value (`1 === 1.0`); bool being a subclass of int, that comparison must not be reached
+    with a boolean operand: `True == 1` is true for the host."""
+    rep.rule(rid, "in the helper behind the strict-equality opcodes (and indexOf/includes/switch, which use it), a host `==` between operands admitted by isinstance(.., int/float) tests of different host types is reached only after booleans were excluded: true === 1 is false", floor=1)
+    from ..util import atoms, known_conditions
+
+    df, chain = ctx.facts.vm_dispatcher()
+    helpers = set()
+    for opn in ("SEQ", "SNE", "STRICT_EQ", "STRICT_NE"):
+        body = chain.body_of(opn)
+        for s in body or []:
+            for c in ast.walk(s):
+                if isinstance(c, ast.Call) and isinstance(c.func, ast.Attribute) and norm(c.func.value) == "self":
+                    m = ctx.tree.find_method(df.cls, c.func.attr) if df.cls is not None else None
+                    if m is not None and len([a for a in m.node.args.args if a.arg != "self"]) == 2:
+                        helpers.add(m)
+    if not helpers:
+        raise AnalysisError("no strict-equality helper found behind the SEQ/SNE handlers")
+    for f in helpers:
+        pa, pb = [a.arg for a in f.node.args.args if a.arg != "self"]
+        n = 0
+        for r in f.own_nodes():
+            if not (isinstance(r, ast.Compare) and len(r.ops) == 1 and isinstance(r.ops[0], (ast.Eq, ast.NotEq)) and {norm(r.left), norm(r.comparators[0])} == {pa, pb}):
+                continue
+            ats = [(norm(a), p) for t, pol in known_conditions(r, f.node) for a, p in atoms(t, pol)]
+            num = {v for v in (pa, pb) if any(p and a.startswith(f"isinstance({v}, ") and "int" in a.split(",", 1)[1] and "bool" not in a for a, p in ats)}
+            same_type = any((a.replace(" ", "") in (f"type({pa})==type({pb})", f"type({pb})==type({pa})", f"type({pa})istype({pb})") and p) or (a.replace(" ", "") in (f"type({pa})!=type({pb})", f"type({pb})!=type({pa})") and not p) for a, p in ats)
+            if not num or same_type:
+                continue
+            n += 1
+            key = f"{f.qual}:{norm(r)} under isinstance int/float"
+            missing = [v for v in (pa, pb) if not any(a == f"isinstance({v}, bool)" and not p for a, p in ats)]
+            if missing:
+                rep.bad(rid, key, f"{f.qual} compares `{norm(r)}` with the host's == after admitting operands by isinstance(.., (int, float)) tests, without excluding a boolean {' / '.join(missing)} first: bool is a subclass of int, so true === 1 and false === 0 come out true", f"{f.module.rel}:{r.lineno}")
+            else:
+                rep.ok(rid, key)
+        if n == 0:
+            rep.ok(rid, f"{f.qual}:no-mixed-type-numeric-comparison", {"note": "the helper has no host == between operands of different host types"})
+
+
+def rule_postfix_result_is_number(ctx, rep, rid: str) -> None:
+    """x++ evaluates to ToNumber(old value).  Decided on the instruction sequences the compiler emits for an update
+    expression (abstract interpretation of the emitting code): where the copy kept as the result is taken BEFORE the
+    INC/DEC instruction (the postfix form), the instruction before that DUP must be one whose handler pushes
+    to_number(..) of its operand."""
+    rep.rule(rid, "on every instruction sequence the compiler emits for an update expression, the value kept as the expression's result is either the output of INC/DEC (prefix) or, when it is copied before INC/DEC (postfix), was converted by an instruction whose handler pushes to_number(..): `x++` on '5' yields the number 5, not the string", floor=4)
+    from .. import emit
+
+    df, chain = ctx.facts.vm_dispatcher()
+    numeric = set()
+    for mem, body, _ in chain.branches:
+        pushes = [c for s_ in body for c in ast.walk(s_) if isinstance(c, ast.Call) and isinstance(c.func, ast.Attribute) and c.func.attr == "append" and norm(c.func.value) == "self.stack"]
+        if len(pushes) == 1 and pushes[0].args and isinstance(pushes[0].args[0], ast.Call) and norm(pushes[0].args[0].func) == "to_number":
+            numeric |= set(mem)
+    if not numeric:
+        raise AnalysisError("no instruction whose handler pushes to_number(..) found")
+    ea = emit.get(ctx)
+    n = 0
+    for br in ea.run_chain("_compile_expression"):
+        if "UpdateExpression" not in br.cls.split("|"):
+            continue
+        seen = set()
+        for e in br.ends:
+            if e.raised:
+                continue
+            ops = [(ev[1], ev[2]) for ev in e.events if ev[0] == "emit"]
+            names = [o for o, _ in ops]
+            idx = [i for i, o in enumerate(names) if set(o.split("/")) & {"INC", "DEC"}]
+            if not idx:
+                continue
+            i = idx[0]
+            sig = tuple(names)
+            if sig in seen:
+                continue
+            seen.add(sig)
+            if i == 0 or names[i - 1] != "DUP":
+                continue  # prefix: the result is what INC/DEC produced
+            n += 1
+            key = f"UpdateExpression:{'→'.join(names[: i + 1])}"
+            before = names[i - 2] if i >= 2 else "?"
+            if set(before.split("/")) <= numeric:
+                rep.ok(rid, key, {"converted_by": before})
+            else:
+                rep.bad(rid, key, f"the compiler copies the old value as the result of a postfix update right after {before} (line {ops[i - 1][1]}), with no instruction in between that converts it to a number ({sorted(numeric)} do): for x = '5', `x++` evaluates to the string '5' (ECMAScript: the number 5)", f"{br.func.module.rel}:{ops[i - 1][1]}")
+    if n < 4:
+        raise AnalysisError(f"{rid}: only {n} postfix update sequences found")
+
+
 # ---- host truthiness is not ToBoolean for NaN -----------------------------------------------------------
 def _float_excluded(call: ast.Call, f, ctx) -> bool:
     """Is the operand of bool(x) known not to be a float (or not NaN) at the call?"""
@@ -463,3 +552,118 @@ def rule_host_rounding_special_points(ctx, rep, rid: str) -> None:
             else:
                 rep.bad(rid, key, f"{f.qual} returns the int 0 for both zeros: Math.sign(-0) is -0", f.loc)
     rep.analysed["math_rounding_sites"] = n
+
+
+# ---- logarithms at their pole ---------------------------------------------------------------------------
+_LOG_POLES = {"math.log": "0", "math.log2": "0", "math.log10": "0", "math.log1p": "-1"}
+
+
+def _is_neg_inf(e: ast.AST) -> bool:
+    t = norm(e).replace(" ", "").replace("'", '"')
+    return t in ('float("-inf")', 'float("-infinity")', "-math.inf", '-float("inf")')
+
+
+def rule_log_poles(ctx, rep, rid: str) -> None:
+    """The host's math.log/log2/log10/log1p raise ValueError at the pole (0; -1 for log1p) and for everything
+    below it.  ECMAScript distinguishes the two: -Infinity AT the pole, NaN below.  A native that guards the host
+    call therefore needs a result -Infinity under an equality test against the pole."""
+    rep.rule(rid, "every native that hands a script number to the host's math.log/log2/log10/log1p yields -Infinity under a test that the argument equals the function's pole (0, or -1 for log1p), separately from the NaN it yields below the pole", floor=3)
+    n = 0
+    for f in ctx.tree.funcs:
+        if isinstance(f.node, ast.Lambda) or f.module.name not in ("context", "vm", "values"):
+            continue
+        # the natives whose RESULT is the host logarithm (`return math.log2(x)`, also as an arm of a conditional
+        # expression); an internal use for a digit count is a different obligation (implicit raisers)
+        returned = set()
+        for r in f.own_nodes():
+            if isinstance(r, ast.Return) and r.value is not None:
+                arms = [r.value]
+                while arms:
+                    a = arms.pop()
+                    if isinstance(a, ast.IfExp):
+                        arms += [a.body, a.orelse]
+                    else:
+                        returned.add(id(a))
+        calls = [c for c in f.own_nodes() if isinstance(c, ast.Call) and id(c) in returned and norm(c.func) in _LOG_POLES and c.args and isinstance(c.args[0], ast.Name)]
+        params = set(f.params())
+        for c in calls:
+            v = c.args[0].id
+            if v in params and not any(isinstance(a, ast.Assign) and any(norm(t) == v for t in a.targets) for a in f.own_nodes()):
+                continue  # a host-level helper working on an already validated number
+            pole = _LOG_POLES[norm(c.func)]
+            n += 1
+            key = f"{f.qual}:{norm(c.func)}:pole"
+            ok = False
+            from ..util import atoms, known_conditions
+
+            for r in f.own_nodes():
+                cands = []
+                if isinstance(r, ast.Return) and r.value is not None:
+                    if _is_neg_inf(r.value):
+                        cands.append((r, []))
+                    for x in ast.walk(r.value):
+                        if isinstance(x, ast.IfExp):
+                            if _is_neg_inf(x.body):
+                                cands.append((r, [(x.test, True)]))
+                            if _is_neg_inf(x.orelse):
+                                cands.append((r, [(x.test, False)]))
+                for node, extra in cands:
+                    ats = [(norm(a).replace(" ", ""), p) for t, pol in list(known_conditions(node, f.node)) + extra for a, p in atoms(t, pol)]
+                    if any((a in (f"{v}=={pole}", f"{pole}=={v}", f"{v}=={pole}.0") and p) or (a in (f"{v}!={pole}", f"{pole}!={v}") and not p) for a, p in ats):
+                        ok = True
+            if ok:
+                rep.ok(rid, key, {"pole": pole})
+            else:
+                rep.bad(rid, key, f"{f.qual} guards the host's {norm(c.func)}({v}) but has no result -Infinity under `{v} == {pole}`: at the pole ECMAScript specifies -Infinity (NaN only below it), and the host function itself raises ValueError there", f"{f.module.rel}:{c.lineno}")
+    # the host logarithm handed to a wrapper factory as a value: `log_fn = unary(math.log)`
+    from ..util import atoms, bind_args, known_conditions
+
+    for f in ctx.tree.funcs:
+        if isinstance(f.node, ast.Lambda) or f.module.name not in ("context", "vm", "values"):
+            continue
+        for c in f.own_nodes():
+            if not (isinstance(c, ast.Call) and isinstance(c.func, ast.Name) and any(isinstance(a, ast.Attribute) and norm(a) in _LOG_POLES for a in c.args)):
+                continue
+            hostfn = next(a for a in c.args if isinstance(a, ast.Attribute) and norm(a) in _LOG_POLES)
+            pole = _LOG_POLES[norm(hostfn)]
+            n += 1
+            key = f"{f.qual}:{norm(c)[:40]}:pole"
+            h = None
+            g = f
+            while g is not None and h is None:
+                h = g.children.get(c.func.id)
+                g = g.parent
+            if h is None or isinstance(h.node, ast.Lambda):
+                rep.bad(rid, key, f"{f.qual} hands the host's {norm(hostfn)} to `{c.func.id}`, which is not a local wrapper this rule can read: at the pole the host function raises ValueError", f"{f.module.rel}:{c.lineno}")
+                continue
+            bound = bind_args(c, h)
+            fparam = next((p_ for p_, a in bound.items() if a is hostfn), None)
+            ok = False
+            for inner in [h] + list(h.children.values()):
+                if isinstance(inner.node, ast.Lambda):
+                    continue
+                calls = [x for x in inner.own_nodes() if isinstance(x, ast.Call) and isinstance(x.func, ast.Name) and x.func.id == fparam and x.args and isinstance(x.args[0], ast.Name)]
+                for hc in calls:
+                    v = hc.args[0].id
+                    for r in inner.own_nodes():
+                        if isinstance(r, ast.Return) and r.value is not None and _is_neg_inf(r.value):
+                            ats = [(a, p_) for t, pol in known_conditions(r, inner.node) for a, p_ in atoms(t, pol)]
+                            for a, p_ in ats:
+                                if not (p_ and isinstance(a, ast.Compare) and len(a.ops) == 1 and isinstance(a.ops[0], ast.Eq)):
+                                    continue
+                                sides = [a.left, a.comparators[0]]
+                                if not any(norm(x) == v for x in sides):
+                                    continue
+                                other = next(x for x in sides if norm(x) != v)
+                                # the other side: the pole itself, or a parameter of the factory bound to it
+                                val = other
+                                if isinstance(other, ast.Name) and other.id in bound and bound[other.id] is not None:
+                                    val = bound[other.id]
+                                if norm(val).replace(" ", "") in (pole, pole + ".0"):
+                                    ok = True
+            if ok:
+                rep.ok(rid, key, {"pole": pole, "through": h.qual})
+            else:
+                rep.bad(rid, key, f"{f.qual} builds a Math native from the host's {norm(hostfn)} through {h.qual}, which has no result -Infinity under a test that the argument equals {pole}: the host raises ValueError at the pole exactly as it does below it, so Math.{norm(hostfn).split('.')[-1]}({pole}) comes out NaN (ECMAScript: -Infinity)", f"{f.module.rel}:{c.lineno}")
+    if n < 3:
+        raise AnalysisError(f"{rid}: only {n} natives over the host logarithms found")
